@@ -5,9 +5,9 @@ ID = "C16"
 LEAN_PROPS = ["FcpptProofs.Props.C16"]
 import os as _os
 _H = _os.path.join(_os.path.dirname(_os.path.dirname(_os.path.abspath(__file__))), "harness")
-# the per-function evaluation is spread over seven translation units that the runner compiles in parallel; they are given
+# the per-function evaluation is spread over eight translation units that the runner compiles in parallel; they are given
 # as absolute paths in `repo_srcs` (os.path.join(REPO, <absolute>) is the absolute path itself)
-HARNESS = {"src": "harness/c16.cpp", "repo_srcs": [_os.path.join(_H, f"c16_{p}.cpp") for p in "abcdefg"]}
+HARNESS = {"src": "harness/c16.cpp", "repo_srcs": [_os.path.join(_H, f"c16_{p}.cpp") for p in "abcdefgh"]}
 TIE = ("hand-written loop-level model (FcpptModel/Model/C16.lean) + differential correspondence against the real templates, "
        "exhaustive over sequences over {0,1,2} up to length 6 for every function, source kind and parameter table, with the "
        "dimensions aliasing (value / key / second container = part of the first argument, every position), value category of every "
@@ -175,6 +175,19 @@ def fn_table():
         # erase-while-iterating on other associative containers
         ("mmiter", [8], ["v"]),
         ("setiter", [8], ["s"]),
+        # user functions that observe the container they are called from / throw at their T-th call (T = 0: never)
+        ("loopbrkx", [8, 8], RO + ["a", "t", "p"]),
+        ("foldx", [1, 8], RO + ["a", "t", "p"]),
+        ("foldbrkx", [8, 8], RO + ["a", "t", "p"]),
+        ("mapx", [4, 8], RO),
+        ("findbyoptx", [64, 8], RO),
+        ("findifoptx", [8, 8], RO),
+        ("seqiterx", [8, 8], SQ),
+        ("removeifx", [8, 8], SQ),
+        ("uniqueifx", [512, 8], SQ),
+        ("amapx", [8], ["a"]),
+        ("ainitx", [8], ["a"]),
+        ("gennx", [3, 8], ["v"]),
         # remaining helpers of fcppt/algorithm and fcppt/container
         ("equal", [4, 7], SQ + ["f"]),
         ("equalself", [], SQ + ["f"]),
@@ -206,8 +219,10 @@ VC_MAXLEN = {"vcjoin": None, "vcappend": 4, "vcpush": 3, "vcajoin": 3, "vcfrom":
 
 
 def max_len(k, fn, top):
-    if fn in ("make", "ajoin4"):
+    if fn in ("make", "ajoin4", "amapx"):
         return 4
+    if fn == "ainitx":
+        return 5
     if fn in ("aappendself", "ajoinself"):
         return 3
     if fn == "tpushat":
@@ -358,6 +373,8 @@ def batches(rng, tier):
         ops += [f"dm contains {K}", f"dm findopt {K}", f"dm findit {K}"]
     ops += [f"dm insert {KV}" for KV in range(12)]
     ops += [f"dm valsref {D}" for D in range(3)]
+    ops += [f"dm goicb {K} {T}" for K in range(4) for T in range(3)]
+    ops += [f"dm {f} {R} {T}" for f in ("mapiterx", "mapiter2x") for R in range(8) for T in range(5)]
     for J in range(3):
         ops += [f"dm {f} {J}" for f in ("getorinsat", "getorinsatv", "findmappedat", "containsat", "insertat")]
     ops += [f"dset {o}" for o in "UIDuidNCnc"]
@@ -437,10 +454,11 @@ def batches(rng, tier):
             out += ws
         return out
     ops = []
-    for w in words([f"{o} {i}" for o in ("imget", "imidx") for i in (0, 1, 2, 4)], 3):
+    for w in words([f"{o} {i}" for o in ("imget", "imidx") for i in (0, 1, 2, 4)] + ["imgetx 2 1", "imgetx 4 2", "imgetx 3 0"], 3):
         ops += ["reset"] + w
     yield Batch("index-map-all-short-histories", ops, kind="history", exhaustive=True,
-                note="all get / operator[] histories of length <= 3 over the indices 0 1 2 4 (growth, no growth, old elements kept)")
+                note="all get / operator[] histories of length <= 3 over the indices 0 1 2 4 (growth, no growth, old elements kept), "
+                     "incl. an insert() that records the size it sees and throws at its 1st / 2nd call (partial growth stays)")
     alpha = ["hgoi 0", "hgoi 1", "hgoi 2", "hins 1 2", "hins 0 0", "hset 1 1", "hiter 1", "hiter 6", "hfind 1", "hcont 0"]
     ops = []
     for w in words(alpha, 4 if thorough else 3):
